@@ -301,7 +301,10 @@ class StoreBackendMixin(object):
         filename = os.path.join(self.location, *call_id, "func_code.py")
         try:
             with self._open_item(filename, "rb") as f:
-                return f.read().decode("utf-8")
+                # The file is written in place: if the writing process was
+                # killed, it can end in the middle of a multi-byte character.
+                # The truncated code then simply differs from the current one.
+                return f.read().decode("utf-8", errors="replace")
         except:  # noqa: E722
             raise
 
